@@ -313,15 +313,28 @@ Proof. induction a as [|e a IH]; intros st b; [reflexivity|]. cbn [app final]. a
 
 Definition quiet (i : id) (ms : list msg) : Prop := Forall (fun m => same_key i m = false) ms.
 
+(** No request of a sequential conversation is ever answered by the transport itself, so the set of abandoned
+    requests stays empty: nothing is dropped as "late". *)
+Lemma late_hit_nil : forall c m, late_hit c [] m = false.
+Proof.
+  intros c m. unfold late_hit. destruct (m_id m); cbn [has_key existsb]; rewrite andb_false_r; reflexivity.
+Qed.
+
+Lemma unabandon_nil : forall c i, unabandon c i [] = [].
+Proof. intros c i. unfold unabandon. destruct (c_drop_late c); reflexivity. Qed.
+
+Lemma not_pending_nil : forall c t m, not_pending c (SS t []) m = (SS t [], [(FromSse, m)]).
+Proof. intros c t m. unfold not_pending. cbn [s_late]. rewrite late_hit_nil. reflexivity. Qed.
+
 (** Unrelated stream traffic passes straight through while the sender is
     posting or waiting for [i]. *)
-Lemma run_quiet : forall c i ms st, quiet i ms ->
-  st = SPosting i \/ st = SWaiting i ->
-  run c st (map (fun m => ESse (Some m)) ms) = map (fun m => (FromSse, m)) ms
-  /\ final c st (map (fun m => ESse (Some m)) ms) = st.
+Lemma run_quiet : forall c i ms t, quiet i ms ->
+  t = SPosting i \/ t = SWaiting i ->
+  run c (SS t []) (map (fun m => ESse (Some m)) ms) = map (fun m => (FromSse, m)) ms
+  /\ final c (SS t []) (map (fun m => ESse (Some m)) ms) = SS t [].
 Proof.
-  intros c i ms st H Hst. induction H as [|m ms Hm _ IH]; [split; reflexivity|].
-  cbn [map run final]. destruct Hst as [-> | ->]; cbn [step]; rewrite Hm; cbn [fst snd app];
+  intros c i ms t H Ht. induction H as [|m ms Hm _ IH]; [split; reflexivity|].
+  cbn [map run final]. destruct Ht as [-> | ->]; cbn [step s_task s_late]; rewrite Hm, not_pending_nil; cbn [fst snd app];
     destruct IH as [IH1 IH2]; rewrite IH1, IH2; split; reflexivity.
 Qed.
 
@@ -335,11 +348,11 @@ Proof. intros. apply skipn_map. Qed.
 
 Lemma legacy_step_202 : forall c i notifs ans p,
   quiet i notifs -> same_key i ans = true ->
-  map snd (run c SIdle (legacy_step_events i notifs ans p)) = notifs ++ [ans]
-  /\ final c SIdle (legacy_step_events i notifs ans p) = SIdle.
+  map snd (run c sinit (legacy_step_events i notifs ans p)) = notifs ++ [ans]
+  /\ final c sinit (legacy_step_events i notifs ans p) = sinit.
 Proof.
-  intros c i notifs ans p Hq Ha. unfold legacy_step_events.
-  cbn [run final step fst snd app].
+  intros c i notifs ans p Hq Ha. unfold legacy_step_events, sinit.
+  cbn [run final step s_task s_late fst snd app]. rewrite unabandon_nil.
   rewrite firstn_map_sse, skipn_map_sse.
   destruct (Nat.leb_spec p (length notifs)) as [Hp|Hp].
   - (* acknowledged before the answer was handled *)
@@ -349,34 +362,36 @@ Proof.
     { unfold quiet in *. apply Forall_app. rewrite firstn_skipn. assumption. }
     destruct Hq12 as [Hq1 Hq2].
     destruct (run_quiet c i _ (SPosting i) Hq1 (or_introl eq_refl)) as [R1 F1].
-    rewrite run_app, final_app, R1, F1. cbn [run final step post_done fst snd app].
+    rewrite run_app, final_app, R1, F1. cbn [run final step s_task s_late post_done post_branches fst snd app].
     change (202 =? 200) with false. change (202 =? 202) with true. cbv iota. cbn [fst snd app].
     rewrite (map_app (fun m : msg => ESse (Some m))). rewrite !run_app, !final_app.
     destruct (run_quiet c i _ (SWaiting i) Hq2 (or_intror eq_refl)) as [R2 F2].
-    rewrite R2, F2. cbn [map run final step fst snd app]. rewrite Ha. cbn [run final step fst snd app].
-    split; [|reflexivity].
-    rewrite !map_app, !map_map. cbn [snd map]. rewrite !map_id, app_nil_r, app_assoc, firstn_skipn. reflexivity.
+    rewrite R2, F2. cbn [map run final step s_task s_late fst snd app]. rewrite Ha.
+    cbn [run final step s_task s_late fst snd app]. unfold resolved_out, done.
+    destruct (c_route_in_stream c); cbn [fst snd app run final]; (split; [|reflexivity]);
+      rewrite !map_app, !map_map; cbn [snd map]; rewrite !map_id, ?app_nil_r, ?app_assoc, firstn_skipn; reflexivity.
   - (* the answer was handled while the POST was still in flight *)
     rewrite firstn_all2 by (rewrite app_length; simpl; lia).
     rewrite skipn_all2 by (rewrite app_length; simpl; lia).
     rewrite (map_app (fun m : msg => ESse (Some m))). cbn [map app].
     destruct (run_quiet c i _ (SPosting i) Hq (or_introl eq_refl)) as [R1 F1].
-    rewrite !run_app, !final_app, !R1, !F1. cbn [run final step fst snd app]. rewrite Ha.
-    cbn [run final step post_done fst snd app].
-    change (202 =? 200) with false. change (202 =? 202) with true. cbv iota. cbn [fst snd app run final step].
-    split; [|reflexivity].
-    rewrite !map_app, map_map. cbn [snd map]. rewrite map_id, ?app_nil_r. reflexivity.
+    rewrite !run_app, !final_app, !R1, !F1. cbn [run final step s_task s_late fst snd app]. rewrite Ha.
+    cbn [run final step s_task s_late post_done post_branches fst snd app]. unfold resolved_out, done.
+    destruct (c_route_in_stream c); cbn [fst snd app run final step s_task s_late post_branches];
+      change (202 =? 200) with false; change (202 =? 202) with true; cbv iota; cbn [fst snd app run final step s_task s_late];
+      (split; [|reflexivity]);
+      rewrite !map_app, ?map_map; cbn [snd map]; rewrite ?map_id, ?app_nil_r; reflexivity.
 Qed.
 
 Lemma legacy_step_200 : forall c i notifs ans,
   quiet i notifs ->
-  map snd (run c SIdle (legacy_step_events_200 i notifs ans)) = notifs ++ [ans]
-  /\ final c SIdle (legacy_step_events_200 i notifs ans) = SIdle.
+  map snd (run c sinit (legacy_step_events_200 i notifs ans)) = notifs ++ [ans]
+  /\ final c sinit (legacy_step_events_200 i notifs ans) = sinit.
 Proof.
-  intros c i notifs ans Hq. unfold legacy_step_events_200.
-  cbn [run final step fst snd app].
+  intros c i notifs ans Hq. unfold legacy_step_events_200, sinit.
+  cbn [run final step s_task s_late fst snd app]. rewrite unabandon_nil.
   destruct (run_quiet c i _ (SPosting i) Hq (or_introl eq_refl)) as [R1 F1].
-  rewrite run_app, final_app, R1, F1. cbn [run final step post_done fst snd app].
+  rewrite run_app, final_app, R1, F1. cbn [run final step s_task s_late post_done post_branches done fst snd app].
   change (200 =? 200) with true. cbv iota. cbn [fst snd app].
   split; [|reflexivity].
   rewrite !map_app, map_map. cbn [snd map]. rewrite map_id. reflexivity.
@@ -386,14 +401,14 @@ Definition cstep_ok (s : cstep) : Prop := quiet (cs_id s) (cs_notifs s) /\ same_
 
 Lemma legacy_conversation_order : forall c (l : list cstep),
   Forall cstep_ok l ->
-  map snd (run c SIdle (lconv_events l)) = lconv_canonical l
-  /\ final c SIdle (lconv_events l) = SIdle.
+  map snd (run c sinit (lconv_events l)) = lconv_canonical l
+  /\ final c sinit (lconv_events l) = sinit.
 Proof.
   intros c l H. induction H as [|s l [Hq Ha] _ [IH1 IH2]]; [split; reflexivity|].
   unfold lconv_events, lconv_canonical in *. cbn [flat_map].
   rewrite run_app, final_app, map_app.
-  assert (E : map snd (run c SIdle (cstep_events s)) = cs_notifs s ++ [cs_ans s]
-              /\ final c SIdle (cstep_events s) = SIdle).
+  assert (E : map snd (run c sinit (cstep_events s)) = cs_notifs s ++ [cs_ans s]
+              /\ final c sinit (cstep_events s) = sinit).
   { unfold cstep_events. destruct (cs_mode s); [apply legacy_step_202|apply legacy_step_200]; assumption. }
   destruct E as [E1 E2]. rewrite E2, IH2. split; [|reflexivity]. f_equal; assumption.
 Qed.
